@@ -97,7 +97,8 @@ impl Check for C02Check {
 
     fn rule(&self) -> String {
         "case = pure tree program (==, !=, conj, conde, fresh; 1-2 query and 0-2 hidden variables; terms of depth <= 2 over \
-         {0, 1, \"a\"}) posted in the generated, the reversed or a seeded random order, x (iteration-order policy over \
+         {0, 1, \"a\"} with lists, improper lists and two #[compound] types; a fifth of the programs contain a \
+         family of related disequalities) posted in the generated, the reversed or a seeded random order, x (iteration-order policy over \
          run_constraints / push_and_normalize / normalize / purify / DisequalityConstraint::{run,subsumes,walk_star}, \
          yields). Oracle R2: over the universe U = atoms (program constants + 2 fresh atoms + []) + pairs + two-element \
          lists, the set of query-variable assignments covered by the engine's answers (term matched, every reported \
